@@ -179,7 +179,23 @@ INPLACE_TEXTS = [
 ]
 
 
+def _guarded_walk(fn, args, seconds=40.0):
+    """one walk under a time limit: arithmetic on numbers of millions of digits (towers of powers reached by a
+    random rewrite sequence) can keep the exact oracle or the real evaluate() busy for hours; such a walk is
+    abandoned (counted in the notes), it is not evidence for or against a property"""
+    from .parse_run import time_limit, _TimeUp
+    try:
+        with time_limit(seconds):
+            return fn(args)
+    except _TimeUp:
+        return {"start": args[0], "steps": [], "problems": [], "abandoned": True}
+
+
 def inplace_walk_case(args):
+    return _guarded_walk(_inplace_walk_case, args)
+
+
+def _inplace_walk_case(args):
     """a random walk on the real code where every rule is applied IN PLACE to the node objects of
     the current tree (no cloning between steps), with the long-lived rule instances, and every
     rule is asked for its applicable nodes before every step.  Returns steps + problems, each
@@ -414,7 +430,8 @@ def inplace_family(ctx, prop):
     with mp.Pool(16) as pool:
         walks = [w for w in pool.imap(inplace_walk_case, jobs, chunksize=16) if w is not None]
     nsteps = sum(len(w["steps"]) for w in walks)
-    ctx.notes["inplace_walks"] = {"walks": len(walks), "steps": nsteps}
+    ctx.notes["inplace_walks"] = {"walks": len(walks), "steps": nsteps,
+                                  "abandoned_after_time_limit": sum(1 for w in walks if w.get("abandoned"))}
     ctx.coverage["evaluations"] += len(walks)
     ctx.coverage["traces_validated_against_impl"] += nsteps
     out = []
@@ -537,6 +554,10 @@ def c07(ctx):
 
 
 def walk_case(args):
+    return _guarded_walk(_walk_case, args)
+
+
+def _walk_case(args):
     """one random walk on the real code, every step on clone_from_root of the chosen node;
     returns the list of steps with everything the checks need"""
     start_text, seed, length = args
